@@ -157,19 +157,82 @@ def module(ctx, full):
     return mod
 
 
+def extra_size(ctx):
+    """the largest small integer the walkers (disassembler walks, traversals, container assembly) compare / count with: the abstract
+    module then also gets that many + 1 functions, blocks per function and instructions per block"""
+    def build():
+        from ..tree import small_literals
+        lits = set()
+        for mod_, ty, tr in (("rspirv::binary::disassemble", "Module", "Disassemble"), ("rspirv::binary::disassemble", "Function", "Disassemble"),
+                             ("rspirv::binary::disassemble", "Block", "Disassemble"), ("rspirv::binary::assemble", "Module", "Assemble"),
+                             ("rspirv::binary::assemble", "Function", "Assemble"), ("rspirv::binary::assemble", "Block", "Assemble"),
+                             ("rspirv::dr::constructs", "Module", False), ("rspirv::dr::constructs", "Function", False)):
+            for f in ctx.rspirv.fns(mod_, ty, tr):
+                if tr is False and "inst_iter" not in f["name"]:
+                    continue
+                lits |= small_literals(f["body"])
+        return max(lits) if lits else 0
+    return ctx.memo("walkx_extra", build)
+
+
+def grow(ctx, mod):
+    """append extra_size+1 - (present) functions of extra_size+1 blocks of extra_size+1 instructions"""
+    k = extra_size(ctx)
+    if k < 2:
+        return mod
+    from . import evalsum
+    t = evalsum._templates(ctx)
+    n = k + 1
+    fns = list(mod[2]["functions"][1])
+    for fi in range(len(fns), max(n, len(fns) + 1)):
+        f = copy.deepcopy(t["Function"])
+        f[2]["def"] = ("some", inst("G%d_FUNCTION" % fi, "Function"))
+        f[2]["parameters"] = ("list", [inst("G%d_PARAMETER%d" % (fi, j), "FunctionParameter") for j in range(n)])
+        blocks = []
+        for bi in range(n):
+            b = copy.deepcopy(t["Block"])
+            b[2]["label"] = ("some", inst("G%d_B%d_LABEL" % (fi, bi), "Label"))
+            b[2]["instructions"] = ("list", [inst("G%d_B%d_I%d" % (fi, bi, j), "IAdd") for j in range(n)])
+            blocks.append(b)
+        f[2]["blocks"] = ("list", blocks)
+        f[2]["end"] = ("some", inst("G%d_END" % fi, "FunctionEnd"))
+        fns.append(f)
+    mod[2]["functions"] = ("list", fns)
+    return mod
+
+
 def expected_module(full, m=None):
     """header, every global instruction (OpConstant typed, after all of types_global_values was tracked), then per function its
-    definition, parameters, per block label and instructions (OpExtInst named, after all imports were tracked), end"""
+    definition, parameters, per block label and instructions (OpExtInst named, after all imports were tracked), end - computed
+    from the module value"""
     T = lambda n: ("text", "instruction", n)
-    out = [("text", "header")] if full else []
-    out += [T(n) for f_, n, _ in SECTIONS if full or f_ != "memory_model"]
-    out += [T("TYPE"), ("text", "typed-constant", "CONSTANT", "TypeTracker", ("TYPE", "CONSTANT", "VARIABLE")), T("VARIABLE")]
 
-    def I(n):
-        return ("text", "named-ext-inst", n, "ExtInstSetTracker", ("IMPORT",)) if n.endswith("EXT") else T(n)
-    out += [T("FUNCTION"), T("PARAMETER"), T("LABEL"), T("ADD"), I("EXT"), T("RETURN"), T("FUNCTION_END")]
-    out += [T("F2_PARAMETER1"), T("F2_PARAMETER2"), I("F2_EXT"), T("F2_LABEL2"), T("F2_END")]
-    out += [T("F3_FUNCTION")]
+    def nm(x):
+        return x[2].get("name")
+
+    def op(x):
+        return x[2]["class"][2]["opcode"][1].split("::")[-1]
+    mod = m[2]
+    out = [("text", "header")] if mod["header"] != NONE else []
+    tracked_types = tuple(nm(x) for x in mod["types_global_values"][1])
+    imports = tuple(nm(x) for x in mod["ext_inst_imports"][1])
+    for f_, _, _ in SECTIONS + [("types_global_values", None, None)]:
+        v = mod[f_]
+        xs = [] if v == NONE else ([v[1]] if v[0] == "some" else list(v[1]))
+        for x in xs:
+            out.append(("text", "typed-constant", nm(x), "TypeTracker", tracked_types) if op(x) == "Constant" else T(nm(x)))
+    for fn in mod["functions"][1]:
+        fl = fn[2]
+        if fl["def"] != NONE:
+            out.append(T(nm(fl["def"][1])))
+        out += [T(nm(x)) for x in fl["parameters"][1]]
+        for b in fl["blocks"][1]:
+            if b[2]["label"] != NONE:
+                out.append(T(nm(b[2]["label"][1])))
+            for x in b[2]["instructions"][1]:
+                out.append(("text", "named-ext-inst", nm(x), "ExtInstSetTracker", imports) if op(x) == "ExtInst" else T(nm(x)))
+        if fl["end"] != NONE:
+            out.append(T(nm(fl["end"][1])))
     res = []
     for i, x in enumerate(out):
         if i:
@@ -183,11 +246,16 @@ def module_disassemble(ctx, full):
     h = WH(ctx)
     ev = progx.make(h, "Module::disassemble")
     h.self_ty = "Module"
+    m = grow(ctx, module(ctx, full))
     try:
-        r = ev.run(f, {"self": module(ctx, full)})
+        r = ev.run(f, {"self": m})
     except SPanic as x:
         return ("panic", str(x))
     return pieces(r)
+
+
+def module_expected(ctx, full):
+    return expected_module(full, grow(ctx, module(ctx, full)))
 
 
 def container_disassemble(ctx, ty, full):
